@@ -459,7 +459,7 @@ func c09Laws() []c09Law {
 func init() {
 	run.Register(&run.Prop{
 		ID: "C09", Level: "exploration", MinNontrivial: 5000,
-		Rule: "precedence: every ordered pair and triple of the 24 binary operators around three atom shapes (exhaustive) is parsed by the real parser and must have the AST of the spelling that the harness parenthesises with its own precedence-climbing over the statement's table (| right < , left < // right < update ops nonassoc < or < and < comparisons nonassoc < + - < * / %), or be rejected where two non-associative operators of one level meet; delimiting: 400 implicit/explicit spelling pairs for as/def/label/reduce/foreach/if/try/unary minus/optional/suffixes/object values/interpolation; print-roundtrip: Parse(q.String()) must be accepted and reflect.DeepEqual to q, and printing must be stable; respacing: white space and comments (LF/CRLF/CR-terminated, backslash-continued) inserted at the offsets where the real lexer was asked for a token outside strings must not change acceptance or the AST. Programs for the last two: a surface pool (every suffix form, nested interpolation, escapes, formats, patterns, keyword keys, module/import/metadata, malformed queries), PRNG-generated core-grammar programs, the corpus queries and token mutations of them, builtin.jq. Non-trivial = distinct accepted sources (precedence: every distinct sequence).",
+		Rule:        "precedence: every ordered pair and triple of the 24 binary operators around three atom shapes (exhaustive) is parsed by the real parser and must have the AST of the spelling that the harness parenthesises with its own precedence-climbing over the statement's table (| right < , left < // right < update ops nonassoc < or < and < comparisons nonassoc < + - < * / %), or be rejected where two non-associative operators of one level meet; delimiting: 400 implicit/explicit spelling pairs for as/def/label/reduce/foreach/if/try/unary minus/optional/suffixes/object values/interpolation; print-roundtrip: Parse(q.String()) must be accepted and reflect.DeepEqual to q, and printing must be stable; respacing: white space and comments (LF/CRLF/CR-terminated, backslash-continued) inserted at the offsets where the real lexer was asked for a token outside strings must not change acceptance or the AST. Programs for the last two: a surface pool (every suffix form, nested interpolation, escapes, formats, patterns, keyword keys, module/import/metadata, malformed queries), PRNG-generated core-grammar programs, the corpus queries and token mutations of them, builtin.jq. Non-trivial = distinct accepted sources (precedence: every distinct sequence).",
 		Assumptions: []string{"ASTs are compared with reflect.DeepEqual after removing parenthesis-only terms", "the delimiting laws follow the grammar pinned by the corpus (e.g. `1 + 2 as $x | -$x` is -3: the source of `as` is an expression), not jq 1.6"},
 		Body: func(c *run.Ctx) {
 			shapes := [][]string{{".a", ".b", ".c", ".d"}, {"1", "2", "3", "4"}, {"f", "g(1)", "$x", ".[0]"}}
